@@ -594,19 +594,25 @@ econf_err econf_writeFile(econf_file *key_file, const char *save_to_dir,
     return ECONF_WRITEERROR;
   }
 
-  // Write to file
+  // Write to file. Entries without a group have to be written first because
+  // there is no way to leave a group again.
+  const char *last_group = NULL;
+  for (int pass = 0; pass < 2; pass++)
   for (size_t i = 0; i < key_file->length; i++) {
+    bool no_group = !strcmp(key_file->file_entry[i].group, KEY_FILE_NULL_VALUE);
+    if ((pass == 0) != no_group)
+      continue;
     // Writing group
-    if (!i || strcmp(key_file->file_entry[i - 1].group,
-                     key_file->file_entry[i].group)) {
-      if (i)
+    if (last_group == NULL || strcmp(last_group, key_file->file_entry[i].group)) {
+      if (last_group != NULL)
         fprintf(kf, "\n");
-      if (strcmp(key_file->file_entry[i].group, KEY_FILE_NULL_VALUE)) {
+      if (!no_group) {
 	char *group = addbrackets(key_file->file_entry[i].group);
 	fprintf(kf, "%s\n", group);
         free(group);
       }
     }
+    last_group = key_file->file_entry[i].group;
 
     // Writing heading comments
     if (key_file->file_entry[i].comment_before_key &&
